@@ -327,9 +327,95 @@ pub fn run(ctx: &Ctx, acc: &mut Acc) {
             acc.sample(J::obj().with("family", J::s(fam.name)).with("sizes_k4", J::Arr(a.iter().map(|(s, n)| J::s(format!("{s}={n}"))).collect())).with("sizes_k16", J::Arr(b.iter().map(|(s, n)| J::s(format!("{s}={n}"))).collect())));
         }
     }
+    run_random(ctx, acc);
+}
+
+/// sizes at k = 3, 4, 6, 8, 12, 16 of one randomly composed shape; same doubling rule
+fn judge_shape(acc: &mut Acc, shape: &super::c19gen::Shape, deadline: &dyn Fn() -> bool) -> bool {
+    let name = shape.name();
+    let mut sizes: std::collections::BTreeMap<usize, Vec<(&'static str, usize)>> = Default::default();
+    for k in [3usize, 4, 6, 8, 12, 16] {
+        if !deadline() {
+            return false;
+        }
+        let src = super::c19gen::program(shape, k);
+        acc.evaluations += 1;
+        match measure(&src) {
+            Ok(m) => {
+                sizes.insert(k, m);
+            }
+            Err(e) => {
+                acc.infra(format!("{name} k={k} does not compile: {e}"));
+                return false;
+            }
+        }
+        if k % 2 == 0 {
+            if let (Some(a), Some(b)) = (sizes.get(&(k / 2)), sizes.get(&k)) {
+                let src_ratio = b[0].1 as f64 / a[0].1 as f64;
+                let mut blown = false;
+                for (stage, sa) in a.iter().skip(1) {
+                    let Some((_, sb)) = b.iter().find(|x| x.0 == *stage) else { continue };
+                    let ratio = *sb as f64 / (*sa).max(1) as f64;
+                    acc.max(&format!("max_doubling_ratio_x100 random shapes {stage}"), (ratio * 100.0) as u64);
+                    acc.count("doubling_comparisons");
+                    if ratio > 12.0 {
+                        blown = true;
+                        acc.violation(
+                            format!("C19:growth:random:{}:{stage}", shape.to_code()),
+                            format!("{name}: {stage} grows from {sa} (k={}) to {sb} (k={k}) — factor {ratio:.1} while the source grows by {src_ratio:.1}", k / 2),
+                            J::obj().with("kind", J::s("random-shape")).with("shape", J::s(shape.to_code())).with("k", J::i(k as i64)).with("src", J::s(src.clone())),
+                        );
+                    }
+                }
+                if blown {
+                    return false;
+                }
+            }
+        }
+    }
+    true
+}
+
+pub fn run_random(ctx: &Ctx, acc: &mut Acc) {
+    use super::c19gen::{Shape, BRANCHES, GLUES};
+    // every branch x glue combination alone first (period 1), then random periodic shapes
+    let mut idx = 0usize;
+    for b in 0..BRANCHES {
+        for g in 0..GLUES {
+            idx += 1;
+            if idx % ctx.nshards != ctx.shard {
+                continue;
+            }
+            let shape = Shape { links: vec![(b, g)] };
+            if judge_shape(acc, &shape, &|| true) {
+                acc.count("single_link_shapes_judged");
+                acc.nontrivial(crate::rng::hash_str(&shape.to_code()));
+            }
+        }
+    }
+    let mut i = 0u64;
+    let max: u64 = if ctx.quick() { 300 } else { 1_000_000 };
+    while ctx.time_left() && i < max {
+        let mut rng = crate::rng::Rng::new(ctx.case_seed(i));
+        i += 1;
+        let shape = Shape::random(&mut rng);
+        if judge_shape(acc, &shape, &|| ctx.time_left()) {
+            acc.count("random_shapes_judged");
+            acc.nontrivial(crate::rng::hash_str(&shape.to_code()));
+            if acc.samples.len() < 4 && i % 7 == 0 {
+                acc.sample(J::obj().with("shape", J::s(shape.name())).with("source_k3", J::s(super::c19gen::program(&shape, 3))));
+            }
+        }
+    }
 }
 
 pub fn replay(payload: &J, acc: &mut Acc) {
+    if payload.get("kind").and_then(|k| k.as_str()) == Some("random-shape") {
+        if let Some(shape) = payload.get("shape").and_then(|s| s.as_str()).and_then(super::c19gen::Shape::from_code) {
+            judge_shape(acc, &shape, &|| true);
+        }
+        return;
+    }
     let fam = payload.get("family").and_then(|s| s.as_str()).unwrap_or("");
     let ctx = Ctx { prop: "C19".into(), tier: super::Tier::Quick, seed: 1, shard: 0, nshards: 1, budget: std::time::Duration::from_secs(600), start: Instant::now() };
     let mut a2 = Acc::default();
